@@ -27,7 +27,7 @@ def warm():
     return _isoquant
 
 
-def _child(argv, home, stdout_path, pre_hook, cwd):
+def _child(argv, home, stdout_path, pre_hook, cwd, post_hook=None):
     iso = warm()
     # the child may be forked from a daemonic harness worker; IsoQuant must be able to start its own process pool
     import multiprocessing
@@ -59,6 +59,11 @@ def _child(argv, home, stdout_path, pre_hook, cwd):
     except BaseException:  # noqa
         traceback.print_exc()
         code = 255
+    if post_hook:
+        try:
+            post_hook(code)
+        except BaseException:  # noqa
+            traceback.print_exc()
     try:
         sys.stdout.flush()
         sys.stderr.flush()
@@ -69,7 +74,7 @@ def _child(argv, home, stdout_path, pre_hook, cwd):
     os._exit(code)
 
 
-def run_isoquant(argv, home, stdout_path=None, pre_hook=None, timeout=600, cwd=None):
+def run_isoquant(argv, home, stdout_path=None, pre_hook=None, timeout=600, cwd=None, post_hook=None):
     """returns exit status (int); 1000+signal if killed by a signal; raises HarnessError on timeout"""
     warm()
     stdout_path = stdout_path or os.devnull
@@ -78,7 +83,7 @@ def run_isoquant(argv, home, stdout_path=None, pre_hook=None, timeout=600, cwd=N
     pid = os.fork()
     if pid == 0:
         try:
-            _child(argv, home, stdout_path, pre_hook, cwd)
+            _child(argv, home, stdout_path, pre_hook, cwd, post_hook)
         finally:
             os._exit(254)
     t0 = time.time()
